@@ -21,6 +21,7 @@ ASSUMPTIONS = [
     "secp256k1",
 ]
 OBLIGATIONS = {
+    "history_sequences": "operation sequences (non-initial process states) explored",
     "add_identity": "P + identity / identity + identity evaluated",
     "add_double": "P + P evaluated",
     "add_inverse": "P + (-P) evaluated",
@@ -209,7 +210,24 @@ CASES = {"add": chk_add, "mul": chk_mul, "ident": chk_ident, "coord": chk_coord,
 
 
 def run_case(kind, case):
+    if kind == "seq":
+        from vf import seqexplore
+        return seqexplore.replay(run_case, case)
     return CASES[kind](case)
+
+
+def seq_ops(job):
+    cv = job["curve"]
+    C = smallcurve.curve(cv)
+    P, Q = C.mul(3, C.G), C.mul(5, C.G)
+    ops = [("add", {"curve": cv, "P": list(P), "Q": list(Q)}), ("add", {"curve": cv, "P": list(P), "Q": list(P)}),
+           ("add", {"curve": cv, "P": list(P), "Q": list(C.neg(P))}), ("add", {"curve": cv, "P": None, "Q": list(Q)}),
+           ("mul", {"curve": cv, "k": C.n + 2, "P": list(C.G)}), ("mul", {"curve": cv, "k": 7, "P": list(Q)}), ("mul", {"curve": cv, "k": 0, "P": list(P)}),
+           ("mul", {"curve": cv, "k": 7, "P": list(C.neg(Q))}), ("ident", {"curve": cv, "a": 6, "b": C.n - 1, "P": list(P)}),
+           ("privkey", {"curve": cv, "key": (3).to_bytes(32, "big").hex()}), ("privkey", {"curve": cv, "key": C.n.to_bytes(32, "big").hex()}),
+           ("keygen", {"curve": cv, "draw": ["abs", 0]}), ("keygen", {"curve": cv, "draw": ["top", 1]}), ("coord", {"curve": cv, "x": P[0], "y": P[1]}),
+           ("coord", {"curve": cv, "x": P[0] + C.p, "y": P[1]})]
+    return ops
 
 
 # ------------------------------------------------------------------ jobs
@@ -249,10 +267,15 @@ def jobs(tier, seed):
         js.append({"name": f"secp/mul/{sh}", "part": "realmul", "shard": [sh, nsh], "weight": 12})
     js.append({"name": "secp/add", "part": "realadd", "weight": 3})
     js.append({"name": "secp/keys", "part": "realkeys", "weight": 6})
+    from vf.runner import seq_jobs
+    js += seq_jobs(3, curve=list(smallcurve.TABLE[0]), weight=3)
     return js
 
 
 def run_job(job):
+    if job["part"] == "seq":
+        from vf.runner import run_seq_job
+        return run_seq_job(job, seq_ops(job), run_case)
     acc = Acc(job)
     part = job["part"]
     cv = job.get("curve")
